@@ -130,7 +130,7 @@ def evaluate_one(case):
 
 
 from ._rt import with_variants                     # noqa: E402
-evaluate = with_variants(evaluate_one)
+evaluate = with_variants(evaluate_one, n=1)
 
 
 def sweeps(tier):
